@@ -22,13 +22,13 @@ CHECKS = {
  "C15": ("fault_enumeration", "runtime fault injection on proof structure: every array node / option / non-field integer of proof, common data and parameters structurally mutated and fed to the circuit builders in memory-limited child processes; an optional part added where the shape has none is part of the mutant set; panics, aborts, circuits accepting what native rejects, and a builder returning Ok for what the native verifier rejects for a structural reason are violations",
          "Exhaustive structural mutants per shape (9 shapes quick, all thorough) x 4-5 entry points (verify_p3_uni_proof_circuit, verify_p3_batch_proof_circuit, verify_batch_circuit, verify_fri_circuit, build_next_layer_circuit). Panics inside native verifiers are observations only.",
          "DESIGN.md §3 C15", TRUSTED),
- "C04": ("fault_enumeration", "runtime fault injection on execution traces: honest Traces of generated programs are forged (table cell, slot value on all tables, constants, public cells), labelled by an independent op-relation evaluator, proven with the honest prover data and shown to the real verifier; second stream (c04npo): the recorded Poseidon permutation rows of row programs / add_mmcs_verify / add_hash_slice circuits are forged (chained limb, witness-bound limb, zero limb, each plain and with the permutation recomputed and carried down the chain, direction-bit flip), labelled by an independent model of the row relation that is first validated on the honest rows; thorough tier: the same prove/verify workload replayed under valgrind memcheck in 16 single-threaded shards (a memcheck report fails the check)",
+ "C04": ("fault_enumeration", "runtime fault injection on execution traces: honest Traces of generated programs are forged (table cell, slot value on all tables incl. upper-limb-only changes of bool-checked slots, constants, public cells), labelled by an independent op-relation evaluator, proven with the honest prover data and shown to the real verifier; second stream (c04npo): the recorded Poseidon permutation rows of row programs / add_mmcs_verify / add_hash_slice circuits are forged (chained limb, witness-bound limb, zero limb, each plain and with the permutation recomputed and carried down the chain, direction-bit flip), labelled by an independent model of the row relation that is first validated on the honest rows; thorough tier: the same prove/verify workload replayed under valgrind memcheck in 16 single-threaded shards (a memcheck report fails the check)",
          "Enumerated single-fault classes on ALU/Const/Public tables of generated circuits in 8 field setups and on Poseidon2/Poseidon1 sponge, chained and arity-2 Merkle rows in 6 packed configurations; a forgery labelled unsatisfying must be rejected. Arity-4 and compact D=1 rows are covered at row level by C11 and for the challenger by C06. Coordinated multi-cell attacks beyond change-and-carry are outside the explored set.",
          "DESIGN.md §3 C04", TRUSTED),
  "C05": ("exploration", "differential runtime monitor over call histories: random interleavings of observe/sample/sample_bits/check_pow_witness/clear are executed by the in-circuit challenger (real runner) and by the native DuplexChallenger; every sampled value, bit vector and PoW verdict compared; second stream: two or three challengers in one circuit with interleaved operations, each compared with its own native transcript",
          "Random histories biased to buffer boundaries over 12 challenger configurations (Poseidon1/2, D1/D2/D4/D5-over-D1, recompose table on/off); distinct buffer-state paths are counted in the evidence.",
          "DESIGN.md §3 C05", TRUSTED),
- "C06": ("fault_enumeration", "runtime fault injection with deviating executors: histories are run with a permutation executor / decomposition hints that deviate on values the verifier does not fix (permutation outputs, and non-bus INPUT lanes of a permutation row forged in the trace with the row recomputed and carried), the traces are proven with the honest prover data and verified; accepted proofs must carry the native challenges",
+ "C06": ("fault_enumeration", "runtime fault injection with deviating executors: histories are run with a permutation executor / decomposition hints that deviate on values the verifier does not fix (permutation outputs, and non-bus INPUT lanes of a permutation row forged in the trace with the row recomputed and carried), the traces are proven with the honest prover data and verified; accepted proofs must carry the native challenges (also the unfaulted run: an accepted honest run whose samples differ from the native challenger is a violation)",
          "Per configuration: every limb class (rate, capacity, single limb, high coefficients) x value kinds x permutation index, plus non-canonical decomposition hints; 8 provable configurations x recompose on/off.",
          "DESIGN.md §3 C06", TRUSTED),
  "C18": ("exploration", "runtime monitor over repeated executions: each program is rebuilt several times in-process (fresh hash seeds per map), in freshly spawned processes, and in processes of a second build of the monitor with the upstream `parallel` (rayon) feature on under RAYON_NUM_THREADS = 1, 4, 16; canonical digests of ops, numbering, maps, preprocessed columns, AIR order, preprocessed commitment and (where the circuit is run and proven) the primitive main matrices and the main-trace commitment are compared; a canary map shows the iteration-order dimension was varied",
@@ -43,10 +43,10 @@ CHECKS = {
  "C08": ("fault_enumeration", "differential runtime monitor: native MerkleTreeMmcs / hiding / extension MMCS verify_batch vs the in-circuit opening verifiers on honest openings at every index and on every single alteration (leaf, sibling word, index bit, cap word, salt, row swap), for single openings and for sequences of 2-4 openings verified in one circuit (state carried between openings; alteration of the first / middle / last opening)",
          "Random dimension vectors (mixed heights, widths off the hash rate, cap heights, arity 2 and 4, hiding, base/extension leaves) on 13 configurations; every index of every tree.",
          "DESIGN.md §3 C08", TRUSTED),
- "C10": ("exploration", "runtime pipeline monitor: generated programs with satisfying inputs are taken through the real build -> key generation -> run -> prove -> verify under random prover configurations; failures are classified with the bus monitor; second stream: row programs over the Poseidon2/Poseidon1 permutation tables (c04npo) built, run, proven and verified",
+ "C10": ("exploration", "runtime pipeline monitor: generated programs with satisfying inputs are taken through the real build -> key generation -> run -> prove -> verify under random prover configurations; failures are classified with the bus monitor (key-generation refusals of an input the compiled circuit reads are judged too); recompose tables in both flavours (standard / split coefficient tables) at 1-3 lanes, with a directed family dense in recompose rows; second stream: row programs over the Poseidon2/Poseidon1 permutation tables (c04npo) built, run, proven and verified",
          "Programs from the generator (3/4 in the dialect that avoids known-broken constructs) x random packings, 8 field setups, plus the directed shapes named by the property (incl. Horner chains whose evaluation point changes and returns) and 480 / 9000 permutation-row programs.",
          "DESIGN.md §3 C10", TRUSTED),
- "C12": ("fault_enumeration", "runtime fault injection with deviating hint executors: the decomposition hints of circuits using decompose_to_bits / decompose_ext_to_base_coeffs are replaced by alternatives satisfying the recomposition identity (bits of x+kp, one non-boolean bit compensating a flipped one, extension-valued bits whose higher limbs cancel, moved coefficient mass), optionally together with a trace-level forgery of the bool-check rows of the prover's own ALU trace; traces are proven with the honest prover data and verified",
+ "C12": ("fault_enumeration", "runtime fault injection with deviating hint executors: the decomposition hints of circuits using decompose_to_bits / decompose_ext_to_base_coeffs are replaced by alternatives satisfying the recomposition identity (bits of x+kp, one non-boolean bit compensating a flipped one, extension-valued bits whose higher limbs cancel, moved coefficient mass; decompositions also emitted under the builder's skip-select-provenance mode), optionally together with a trace-level forgery of the bool-check rows of the prover's own ALU trace; traces are proven with the honest prover data and verified",
          "Value classes (0, 1, small, around the 2^n-p slack, p-1, random) x widths x k in 1..3 for bits; three mass-moving families for coefficients, ALU and recompose-table paths; 8 field setups. Challenger gadgets are covered by C06.",
          "DESIGN.md §3 C12", TRUSTED),
  "C13": ("exploration", "differential runtime monitor: random symbolic constraint DAGs (and the repo's real AIRs) are compiled by the real symbolic compiler / eval_folded_circuit, run, and compared with the native verifier constraint folder on random assignments",
@@ -61,10 +61,10 @@ CHECKS = {
  "C11": ("fault_enumeration", "runtime monitor over explicit trace rows: the real AIR constraints (incl. bus tuples) are evaluated on valid rows and on every single-cell perturbation and compared with an independent evaluation of the operation's relation in native field arithmetic",
          "Every cell of every row layout (all op kinds x reductions x lanes x Horner packings, Poseidon1/2 row kinds) perturbed one at a time; constraints must accept exactly when the independently evaluated relation holds. Round-internal Poseidon columns are not perturbed.",
          "DESIGN.md §3 C11", TRUSTED),
- "C16": ("fault_enumeration", "runtime fault injection on proof metadata: every self-declared metadata field of real circuit proofs (honest and of invalid traces) altered through the serialised form, verdict of the real verifier observed; serialisation round-trip differential; in-memory-only fields (stark_common.lookups, which serialisation does not carry) altered in the proof object and in the prover data, verdict compared with the verdict after a round trip",
+ "C16": ("fault_enumeration", "runtime fault injection on proof metadata: every self-declared metadata field of real circuit proofs (honest and of invalid traces) altered through the serialised form, verdict of the real verifier observed; serialisation round-trip differential; in-memory-only fields (stark_common.lookups, which serialisation does not carry) altered in the proof object and in the prover data, and serialised fields (the preprocessed matrix map) altered on the in-memory object rather than through a deserialiser, verdict compared with the verdict after a round trip",
          "Exhaustive single-field (sampled pairs) alteration of BatchStarkProof metadata on 6 configurations; a relying party pinning the preprocessed commitment never accepts an invalid-trace proof; codecs preserve the verdict. A verifier panic counts as (unclean) rejection and is reported as an observation.",
          "DESIGN.md §3 C16", TRUSTED),
- "C17": ("exploration", "runtime monitor over call histories of the real recursion API (next-layer / aggregation steps, adversarial cache offers): each output verified natively and fed to a further layer, cached vs uncached verdicts compared, and a state invariant of the aggregation cache slot (untouched, or fingerprint of the circuit just proven) asserted after every call that was handed a slot",
+ "C17": ("exploration", "runtime monitor over call histories of the real recursion API (next-layer / aggregation steps, adversarial cache offers): children include batch proofs of tiny circuits under multi-lane packings (where prover and key generation reduce lanes differently); each output verified natively and fed to a further layer, cached vs uncached verdicts compared, and a state invariant of the aggregation cache slot (untouched, or fingerprint of the circuit just proven) asserted after every call that was handed a slot",
          "Random histories of depth 1-4 with parameter changes (lanes, Horner packing, constraint profile, recompose lane count) and cache slots filled by other circuits; one history in five runs with the recompose table switched off; histories are short because each step costs seconds.",
          "DESIGN.md §3 C17", TRUSTED),
  "C03": ("exploration", "runtime monitor with adversarial witness completion: the emitted op list is evaluated on its own by an independent relation checker and compared with the source program's relations; counter-examples are confirmed by proving a forged trace",
